@@ -91,6 +91,11 @@ def _pq_completion(P):
     real_roots = np.sort(real_roots)
     real_roots = real_roots[::2]
 
+    # purely imaginary roots of Q come in +/- pairs as well, and each appears
+    # twice among the roots of Q * Q^*: keep one copy and include its negative
+    imag_roots = np.sort(imag_roots)[::2]
+    imag_roots = np.r_[imag_roots, -imag_roots]
+
     # include negative conjugate of complex roots
     cplx_roots = np.r_[cplx_roots, -cplx_roots]
 
